@@ -161,6 +161,23 @@ class Ptr:
         return f"&{self.get()!r}"
 
 
+def seq_units(s):
+    """elements of a sequence built from units only (concrete length), else None"""
+    out = []
+
+    def walk(t):
+        kd = t.decl().kind()
+        if kd == z3.Z3_OP_SEQ_EMPTY:
+            return True
+        if kd == z3.Z3_OP_SEQ_UNIT:
+            out.append(t.arg(0))
+            return True
+        if kd == z3.Z3_OP_SEQ_CONCAT:
+            return all(walk(t.arg(i)) for i in range(t.num_args()))
+        return False
+    return out if walk(s) else None
+
+
 class SeqElemPtr:
     """place `bytes[i]` inside a Bytes value"""
     __slots__ = ("bptr", "idx")
@@ -169,11 +186,32 @@ class SeqElemPtr:
         self.bptr = bptr
         self.idx = idx
 
+    def _concrete(self):
+        i = self.idx
+        if not isinstance(i, int):
+            si = z3.simplify(i)
+            if not z3.is_bv_value(si):
+                return None, None
+            i = si.as_long()
+        items = seq_units(self.bptr.get().s)
+        if items is None or i >= len(items):
+            return None, None
+        return items, i
+
     def get(self):
+        items, i = self._concrete()
+        if items is not None:
+            return Int(items[i], "u8")
         s = self.bptr.get().s
         return Int(z3.SubSeq(s, z3.BV2Int(self.idx) if not isinstance(self.idx, int) else z3.IntVal(self.idx), z3.IntVal(1))[0], "u8")
 
     def set(self, v):
+        items, ci = self._concrete()
+        if items is not None:
+            items = list(items)
+            items[ci] = v.t
+            self.bptr.set(Bytes(seq_of(items)))
+            return
         s = self.bptr.get().s
         i = z3.BV2Int(self.idx) if not isinstance(self.idx, int) else z3.IntVal(self.idx)
         self.bptr.set(Bytes(z3.Concat(z3.SubSeq(s, z3.IntVal(0), i), z3.Unit(v.t), z3.SubSeq(s, i + 1, z3.Length(s) - i - 1))))
